@@ -17,7 +17,7 @@ LOOPS = ("while", "for", "forin", "dowhile")
 
 def size(sk):
     k = sk[0]
-    if k in ("s", "d", "break", "continue", "return", "def", "class"):
+    if k in ("s", "d", "break", "continue", "return", "def", "class", "goto", "label"):
         return 1
     if k == "if":
         return 1 + sum(size(x) for x in sk[1]) + sum(size(x) for x in (sk[2] or []))
@@ -119,6 +119,24 @@ def stmts(n, depth, in_loop, kinds):
                     if "switch_default_first" in kinds:
                         out.append(("switch", [ba], bd, "first"))      # the default clause written before the cases
     return out
+
+
+def goto_shapes():
+    """forward gotos: over an if/else whose arms both return (the label is reachable through the goto only), over plain statements,
+    out of a loop, into the arm of an if, unconditional (dead code in between), two gotos to one label, two labels"""
+    G = lambda l: ("if", [("goto", l)], None)  # noqa: E731
+    return [
+        [G("L1"), ("if", [("return",)], [("return",)]), ("label", "L1"), ("s",), ("return",)],
+        [("s",), G("L1"), ("s",), ("label", "L1"), ("s",)],
+        [("while", [("s",), G("L1")]), ("s",), ("label", "L1"), ("s",), ("return",)],
+        [("if", [("goto", "L1")], [("s",)]), ("if", [("s",), ("label", "L1"), ("s",)], None), ("s",)],
+        [("s",), ("goto", "L1"), ("s",), ("label", "L1"), ("s",)],
+        [G("L1"), ("s",), G("L1"), ("s",), ("label", "L1"), ("s",)],
+        [G("L2"), G("L1"), ("s",), ("label", "L1"), ("s",), ("label", "L2"), ("s",)],
+        [("if", [("if", [("goto", "L1")], None), ("s",)], [("goto", "L1")]), ("s",), ("label", "L1"), ("return",)],
+        [("for", [G("L1"), ("s",)]), ("label", "L1"), ("s",)],
+        [("dowhile", [("s",), G("L1")]), ("s",), ("label", "L1"), ("s",)],
+    ]
 
 
 def enumerate_methods(max_size, depth, kinds):
@@ -281,6 +299,10 @@ class CLike:
                 lines.append(pad + "s(%d)%s" % (self.uid(), self.semi))
             elif k == "return":
                 lines.append(pad + "return %s%s" % (self.var("c"), self.semi))
+            elif k == "goto":
+                lines.append(pad + "goto %s%s" % (st[1], self.semi))
+            elif k == "label":
+                lines.append("%s:" % st[1])
             elif k == "break":
                 lines.append(pad + "break" + self.semi)
             elif k == "continue":
@@ -429,6 +451,7 @@ class Java(CLike):
 class Cc(CLike):
     name = "c"
     ext = ".c"
+    kinds = CLike.kinds | {"goto", "label"}
 
     def method(self, name, body):
         self.n = 0
